@@ -103,6 +103,15 @@ Supported subset
               dict with str keys / tuple / re.compile(<const>) / template; refused if the name is bound more than
               once, if anything in the package assigns into it, deletes from it or calls a mutating method on
               it (aliases are not followed), or if `mod` is not bound exactly once by `from . import mod`).
+              generators (NestedDefTr with `yields`): a nested generator function is presented as the list of the
+              values it yields when run to its end (`yield e` as a statement appends e; no return / yield from);
+              a value of one of two types (SUM: np.float64(item) or the item text) is injected by its static type;
+              `n, r = f(...)` from a call that may raise; lists of (pattern, template) pairs compared with == / !=;
+              mod.f(args, kw=...) for a translated module-level function of another lasio module (`modules`);
+              a file handed to a call is read by the callee: the variable is unavailable until assigned again
+              (`file_obj.seek(k)` is a spec-declared rewrite to "the file as it stands at offset k", a parameter);
+              BlockTr `before` (statements in front of the anchor), nested defs translated on their own are
+              skipped inside a block.
   refused     a translated name that is bound a second time in its module / class (or assigned through
               Class.name / setattr / global) is refused: the translation would not be what runs.
   fragments   BlockTr (a block of a big method from an anchor statement to the end of its statement list, or its
@@ -157,6 +166,11 @@ def TUPLE(*ts):
     return ("tuple",) + tuple(ts)
 
 
+def SUM(a, b):
+    """a value that is an a or a b (injected by its static type where it is produced)"""
+    return ("sum", a, b)
+
+
 SIMPLE_TYPE = {STR: "list N", INT: "Z", BOOL: "bool", PAT: "list frag", PATS: "list (list frag)", DYN: "V",
                ITEM: "py_item V", KEYS: "py_keys", VERSION: "las_version",
                OTABLE: "list ((las_version * list N) * order_entry)", OENTRY: "order_entry",
@@ -184,6 +198,8 @@ def coq_type(ty):
         return " -> ".join("(%s)" % coq_type(t) for t in ty[1] + (ty[2],))
     if k == "tuple":
         return "(%s)" % " * ".join("(%s)" % coq_type(t) for t in ty[1:])
+    if k == "sum":
+        return "((%s) + (%s))" % (coq_type(ty[1]), coq_type(ty[2]))
     raise KeyError(ty)
 
 
@@ -1412,6 +1428,8 @@ class Tr:
                 add(sink[1])
             if isinstance(s, ast.Assign) and self.is_readline(s.value):
                 add(s.value.func.value.id)               # reading a line moves the file on
+            if isinstance(s, ast.Expr) and isinstance(s.value, ast.Yield) and "yields" in self.spec:
+                add(self.spec["yields"][0])
             if isinstance(s, ast.Assign):
                 for t in s.targets:
                     target(t)
@@ -1433,6 +1451,8 @@ class Tr:
                 self.assigned(s.body, acc)
                 for h in s.handlers:
                     self.assigned(h.body, acc)
+                self.assigned(s.orelse, acc)
+                self.assigned(s.finalbody, acc)
             elif isinstance(s, ast.FunctionDef):
                 add(s.name)
         return acc
@@ -1449,6 +1469,10 @@ class Tr:
                 return E("dyn_of_str ops %s" % (e.code if e.code.startswith(("(", "[")) or " " not in e.code else "(%s)" % e.code), DYN)
         if want == DYN and e.ty == FLOATV and not e.partial and "float_to_dyn" in self.spec:
             return E("%s (%s)" % (self.spec["float_to_dyn"], e.code), DYN)
+        if is_type(want, "sum") and e.ty in want[1:] and want[1] != want[2]:
+            tag = "inl" if e.ty == want[1] else "inr"
+            r = self.strict([e], lambda c: "%s (%s)" % (tag, c[0]), want)
+            return r
         if is_type(want, "opt"):
             if e.ty == NONE:
                 return E("(None : %s)" % self.ctype(want, node), want)
@@ -1605,6 +1629,13 @@ class Tr:
             pre, post, env2 = self.bind(lname, new, env, s)
             env2 = dict(env2)
             env2[x] = None           # x is the element before the change
+            return pre + go(env2) + post
+        if isinstance(s, ast.Expr) and isinstance(s.value, ast.Yield) and "yields" in self.spec and s.value.value is not None:
+            # yield e in a generator presented as the list of everything it yields: the list grows by e
+            out, ety = self.spec["yields"]
+            e = self.coerce(self.expr(s.value.value, env), ety, s)
+            new = self.strict([e], lambda c: "(%s ++ [%s])" % (self.var(out), c[0]), LIST(ety))
+            pre, post, env2 = self.bind(out, new, env, s)
             return pre + go(env2) + post
         if isinstance(s, ast.Expr):
             c = s.value
@@ -2584,6 +2615,7 @@ class BlockTr(Tr):
             if not cut:
                 self.err(fn, "no assignment to %s after %s" % (self.spec["until"], self.spec["anchor"]))
             frag = frag[:cut[0]]
+        frag = [st for st in frag if not (isinstance(st, ast.FunctionDef) and st.name in self.spec.get("local_calls", ()))]
         for st in frag:
             for x in ast.walk(st):
                 if isinstance(x, (ast.Return, ast.Yield, ast.YieldFrom, ast.Await)):
@@ -2684,6 +2716,24 @@ class NestedDefTr(Tr):
         for nm in free:
             if nm in local and not nm.startswith("attr_"):
                 self.err(d, "%s assigns the enclosing variable %s" % (d.name, nm))
+        is_gen = any(isinstance(x, (ast.Yield, ast.YieldFrom)) for x in ast.walk(d))
+        if is_gen != ("yields" in self.spec):
+            self.err(d, "%s is %sa generator" % (d.name, "" if is_gen else "not "))
+        if is_gen:
+            # a generator, presented as the list of the values it yields when it is run to its end
+            out = self.spec["yields"][0]
+            for x in ast.walk(d):
+                if isinstance(x, (ast.Return, ast.YieldFrom)) or (isinstance(x, ast.Name) and x.id == out) \
+                        or (isinstance(x, ast.Yield) and (x.value is None or not any(
+                            isinstance(st, ast.Expr) and st.value is x for st in ast.walk(d)))):
+                    self.err(x, "unsupported in a generator: return / yield from / a yield that is not a statement")
+            head = ast.parse("%s = []" % out).body[0]
+            tail = ast.parse("return %s" % out).body[0]
+            for x in ast.walk(head):
+                x.lineno = d.body[0].lineno
+            for x in ast.walk(tail):
+                x.lineno = d.body[-1].end_lineno
+            return [head] + list(d.body) + [tail]
         return d.body
 
     def check_signature(self, fn):
@@ -2852,6 +2902,19 @@ SPECS += [
          module_regexes={"sow_regex": "rx_sow"},
          module_consts_decl={"defaults.HYPHEN_SUBS": LIST(STR), "defaults.READ_SUBS": DICT(STR, LIST(SUBPAIR))},
          ret=TUPLE(INT, LIST(SUBPAIR))),
+    dict(py="read_data_section_iterative_normal_engine", file="reader.py", cls=None, coq="py_engine_items",
+         translator=NestedDefTr, nested_name="items", n_own=3, yields=("out_", SUM(FLOATV, STR)),
+         params=[("f", FILE), ("start_line_no", INT), ("end_line_no", INT), ("ignore_data_comments", STR),
+                 ("regexp_subs", LIST(SUBPAIR)), ("line_splitter", FUNC([STR], LIST(JOINED)))],
+         locals={"out_": LIST(SUM(FLOATV, STR))}, ret=LIST(SUM(FLOATV, STR)),
+         extra_binders=[("{V F : Type} (nops : num_ops V F)", "nops")],
+         oracles={"np.float64": dict(args=[STR], ret=FLOATV, code="np_float64 nops", raises=True, exc="ValueError")}),
+    dict(py="read_data_section_iterative_normal_engine", file="reader.py", cls=None, coq="py_engine_array",
+         translator=BlockTr, anchor="title", until="value", result="array", local_calls=("items",),
+         params=[("file_obj", FILE), ("line_nos", TUPLE(INT, INT)), ("regexp_subs", LIST(SUBPAIR)), ("ignore_data_comments", STR),
+                 ("line_splitter", FUNC([STR], LIST(JOINED)))],
+         ret=ARR, extra_binders=[("{V F : Type} (nops : num_ops V F)", "nops"), ("{A : Type} (np_array : list (F + list N) -> A)", "np_array")],
+         oracles={"np.array": dict(args=[LIST(SUM(FLOATV, STR))], ret=ARR, code="np_array", raises=False)}),
     dict(consts_only=True, file="reader.py", module_consts_decl={"defaults.READ_POLICIES": DICT(STR, LIST(STR))}),
     dict(py="read", file="las.py", cls="LASFile", coq="py_inspect_twice", translator=BlockTr,
          anchor_if="recommended_regexp_subs != regexp_subs and accept_regexp_sub_recommendations", before=2, length=3,
